@@ -14,6 +14,9 @@
 #define IS_BINDING(t)  (((t) & 0x3eef) == 0x0001)
 #define CLASS_OF(t)    ((t) & 0x0110)
 #define GHOST_ZERO (gh_dec_calls == 0 && gh_ws_calls == 0 && gh_pc_calls == 0 && gh_rs_calls == 0 && gh_connected == 0 && gh_dgram == 0 && gh_timer_stop == 0 && \
-                    gh_pairs_appended == 0 && gh_pair_new == 0 && gh_sort_calls == 0 && gh_rs_pair == 0 && gh_localCandidate_calls == 0 && gh_enc_calls == 0 && gh_wd_calls == 0 && gh_newtx_calls == 0)
+                    gh_pairs_appended == 0 && gh_pair_new == 0 && gh_sort_calls == 0 && gh_rs_pair == 0 && gh_req_pair == 0 && gh_localCandidate_calls == 0 && gh_enc_calls == 0 && gh_wd_calls == 0 && gh_newtx_calls == 0)
 #define NO_EFFECT_EVENTS (self->d->remoteCandidates.appended == 0 && gh_ws_calls == 0 && gh_pc_calls == 0 && gh_rs_calls == 0 && gh_connected == 0 && gh_timer_stop == 0 && \
                           gh_pairs_appended == 0 && gh_pair_new == 0 && gh_sort_calls == 0)
+/* the selection rule of the "signal completion" step (RFC 5245 8.1.1 / 11.1.1: once a pair is nominated media may flow; QXmpp: the timer stops, the nominated
+   pair becomes the active pair unless a selected pair of at least its priority exists, connected() is emitted when the component had no active pair) */
+#define SELECTED_IF_NONE_WAS(p) (gh_timer_stop >= 1 && self->d->activePair != NULL && (__CPROVER_old(self->d->activePair) == NULL ==> (self->d->activePair == (p) && gh_connected == 1)))
